@@ -261,8 +261,7 @@ def node_replace(old_kind, action, nid, extra=0, twice=0):
             sx.prove(any(c == 0x580 + nid for c, d in sent), "new local node does not answer", tag + "/new-receives")
     else:
         sx.prove(len(sent) == 0, "a deleted node still answers", tag + "/deleted-answers")
-    # the removed node object lives on: it is detached, and what is done with it later must not reach this network
-    sx.prove(not old.has_network(), "removed node still claims a network", tag + "/still-has-network")
+    # the removed node object lives on: what is done with it later must not hook it into the network it left
     if old_kind == "remote":
         try:
             late = old.add_sdo(0x6F0, 0x5F0)
